@@ -46,7 +46,10 @@ type Profile struct {
 	HookBias  int // percentage of docs with active Transform/Validate hooks
 	RichShape int // percentage of docs with containers/pointers filled
 	// queries
-	MaxLeaves int
+	MaxLeaves      int
+	LimitPct       int // percentage of queries with a limit (default 35)
+	IndexedLastPct int // percentage of queries forced to end on an indexed path
+	AndOnlyPct     int // percentage of chains that use And only
 	FixedCfg  *Config
 }
 
@@ -79,7 +82,37 @@ var (
 	maxTime    = time.Date(2261, 1, 1, 0, 0, 0, 0, time.UTC)
 )
 
-func (g *G) pct(label string) int { return rapid.IntRange(0, 99).Draw(g.t, label) }
+// rapid's integer and SampledFrom generators are deliberately biased towards
+// small values; structural choices (which op, which path, probabilities) need
+// a uniform source, built here from unbiased single bits.
+func (g *G) uni(n int, label string) int {
+	if n <= 1 {
+		return 0
+	}
+	bits := 0
+	for (1 << bits) < n {
+		bits++
+	}
+	return rapid.Custom(func(t *rapid.T) int {
+		for try := 0; try < 4; try++ {
+			v := 0
+			for i := 0; i < bits; i++ {
+				v <<= 1
+				if rapid.Bool().Draw(t, "bit") {
+					v |= 1
+				}
+			}
+			if v < n {
+				return v
+			}
+		}
+		return 0
+	}).Draw(g.t, label)
+}
+
+func (g *G) pct(label string) int { return g.uni(100, label) }
+
+func pickU[T any](g *G, xs []T, label string) T { return xs[g.uni(len(xs), label)] }
 
 func (g *G) source() int {
 	// 0 tiny, 1 pool/neighbour, 2 big, 3 free
@@ -99,20 +132,20 @@ func (g *G) Int(bits int) int64 {
 	var v int64
 	switch g.source() {
 	case 0:
-		v = rapid.SampledFrom(tinyInts).Draw(g.t, "tinyint")
+		v = pickU(g, tinyInts, "tinyint")
 	case 1:
 		if len(g.ints) > 0 {
-			v = rapid.SampledFrom(g.ints).Draw(g.t, "poolint")
+			v = pickU(g, g.ints, "poolint")
 			d := rapid.IntRange(-1, 1).Draw(g.t, "delta")
 			if (d > 0 && v < math.MaxInt64) || (d < 0 && v > math.MinInt64) {
 				v += int64(d)
 			}
 		} else {
-			v = rapid.SampledFrom(tinyInts).Draw(g.t, "tinyint")
+			v = pickU(g, tinyInts, "tinyint")
 		}
 	case 2:
 		if bits == 64 {
-			v = rapid.SampledFrom(bigInts).Draw(g.t, "bigint")
+			v = pickU(g, bigInts, "bigint")
 		} else {
 			v = rapid.SampledFrom([]int64{int64(1)<<(bits-1) - 1, -(int64(1) << (bits - 1)), int64(1)<<(bits-1) - 2}).Draw(g.t, "edgeint")
 		}
@@ -128,10 +161,10 @@ func (g *G) Uint(bits int) uint64 {
 	var v uint64
 	switch g.source() {
 	case 0:
-		v = rapid.SampledFrom(tinyUints).Draw(g.t, "tinyuint")
+		v = pickU(g, tinyUints, "tinyuint")
 	case 1:
 		if len(g.uns) > 0 {
-			v = rapid.SampledFrom(g.uns).Draw(g.t, "pooluint")
+			v = pickU(g, g.uns, "pooluint")
 			d := rapid.IntRange(-1, 1).Draw(g.t, "delta")
 			if d > 0 && v < math.MaxUint64 {
 				v++
@@ -139,11 +172,11 @@ func (g *G) Uint(bits int) uint64 {
 				v--
 			}
 		} else {
-			v = rapid.SampledFrom(tinyUints).Draw(g.t, "tinyuint")
+			v = pickU(g, tinyUints, "tinyuint")
 		}
 	case 2:
 		if bits == 64 {
-			v = rapid.SampledFrom(bigUints).Draw(g.t, "biguint")
+			v = pickU(g, bigUints, "biguint")
 		} else {
 			v = uint64(1)<<bits - 1 - uint64(rapid.IntRange(0, 1).Draw(g.t, "edge"))
 		}
@@ -166,10 +199,10 @@ func (g *G) Float(bits int) float64 {
 	var v float64
 	switch g.source() {
 	case 0:
-		v = rapid.SampledFrom(tinyFloats).Draw(g.t, "tinyfloat")
+		v = pickU(g, tinyFloats, "tinyfloat")
 	case 1:
 		if len(g.fls) > 0 {
-			v = rapid.SampledFrom(g.fls).Draw(g.t, "poolfloat")
+			v = pickU(g, g.fls, "poolfloat")
 			switch rapid.IntRange(-1, 1).Draw(g.t, "delta") {
 			case 1:
 				v = finite(math.Nextafter(v, math.Inf(1)))
@@ -177,10 +210,10 @@ func (g *G) Float(bits int) float64 {
 				v = finite(math.Nextafter(v, math.Inf(-1)))
 			}
 		} else {
-			v = rapid.SampledFrom(tinyFloats).Draw(g.t, "tinyfloat")
+			v = pickU(g, tinyFloats, "tinyfloat")
 		}
 	case 2:
-		v = rapid.SampledFrom(bigFloats).Draw(g.t, "bigfloat")
+		v = pickU(g, bigFloats, "bigfloat")
 	default:
 		v = finite(rapid.Float64().Draw(g.t, "float"))
 	}
@@ -197,10 +230,10 @@ func (g *G) Str() string {
 	var v string
 	switch g.source() {
 	case 0:
-		v = rapid.SampledFrom(tinyStrs).Draw(g.t, "tinystr")
+		v = pickU(g, tinyStrs, "tinystr")
 	case 1:
 		if len(g.strs) > 0 {
-			v = rapid.SampledFrom(g.strs).Draw(g.t, "poolstr")
+			v = pickU(g, g.strs, "poolstr")
 			switch rapid.IntRange(0, 3).Draw(g.t, "strmod") {
 			case 1:
 				v += "a"
@@ -213,10 +246,10 @@ func (g *G) Str() string {
 				}
 			}
 		} else {
-			v = rapid.SampledFrom(tinyStrs).Draw(g.t, "tinystr")
+			v = pickU(g, tinyStrs, "tinystr")
 		}
 	case 2:
-		v = rapid.SampledFrom(caseStrs).Draw(g.t, "casestr")
+		v = pickU(g, caseStrs, "casestr")
 	default:
 		if g.pct("strkind") < 50 {
 			v = strGen.Draw(g.t, "str")
@@ -232,10 +265,10 @@ func (g *G) Time() time.Time {
 	var v time.Time
 	switch g.source() {
 	case 0:
-		v = baseTime.Add(time.Duration(rapid.IntRange(-2, 2).Draw(g.t, "tinytime")))
+		v = baseTime.Add(time.Duration(g.uni(5, "tinytime") - 2))
 	case 1:
 		if len(g.tms) > 0 {
-			v = rapid.SampledFrom(g.tms).Draw(g.t, "pooltime").Add(time.Duration(rapid.IntRange(-1, 1).Draw(g.t, "delta")))
+			v = pickU(g, g.tms, "pooltime").Add(time.Duration(rapid.IntRange(-1, 1).Draw(g.t, "delta")))
 		} else {
 			v = baseTime
 		}
@@ -251,7 +284,7 @@ func (g *G) Time() time.Time {
 	if v.After(maxTime) {
 		v = maxTime
 	}
-	v = v.In(rapid.SampledFrom(zones).Draw(g.t, "zone"))
+	v = v.In(pickU(g, zones, "zone"))
 	g.tms = append(g.tms, v)
 	return v
 }
@@ -448,16 +481,16 @@ func (g *G) Config() Config {
 			cands = append(cands, docPathIndex[n])
 		}
 	}
-	nIdx := rapid.IntRange(p.MinIndexed, p.MaxIndexed).Draw(g.t, "nindexed")
+	nIdx := p.MinIndexed + g.uni(p.MaxIndexed-p.MinIndexed+1, "nindexed")
 	for i := 0; i < nIdx; i++ {
-		pi := rapid.SampledFrom(cands).Draw(g.t, "indexedpath")
+		pi := pickU(g, cands, "indexedpath")
 		k := c.Cons[pi.Path]
 		k.Index = true
 		c.Cons[pi.Path] = k
 	}
-	nUni := rapid.IntRange(p.MinUnique, p.MaxUnique).Draw(g.t, "nunique")
+	nUni := p.MinUnique + g.uni(p.MaxUnique-p.MinUnique+1, "nunique")
 	for i := 0; i < nUni; i++ {
-		pi := rapid.SampledFrom(cands).Draw(g.t, "uniquepath")
+		pi := pickU(g, cands, "uniquepath")
 		k := c.Cons[pi.Path]
 		k.Unique = true
 		k.Index = g.pct("uniqueindex") < 80
@@ -473,7 +506,7 @@ func (g *G) Config() Config {
 		if len(sp) == 0 {
 			sp = stringPaths
 		}
-		pi := rapid.SampledFrom(sp).Draw(g.t, "casepath")
+		pi := pickU(g, sp, "casepath")
 		k := c.Cons[pi.Path]
 		switch rapid.IntRange(0, 4).Draw(g.t, "casekind") {
 		case 0, 1:
@@ -505,14 +538,14 @@ func (g *G) queryPaths() []PathInfo {
 }
 
 func (g *G) Leaf(conn string) Leaf {
-	p := rapid.SampledFrom(g.queryPaths()).Draw(g.t, "qpath")
-	op := rapid.SampledFrom(allOps).Draw(g.t, "qop")
+	p := pickU(g, g.queryPaths(), "qpath")
+	op := pickU(g, allOps, "qop")
 	if op == "~=" && p.Class != ClsStr {
 		op = "="
 	}
 	v := g.Probe(p)
 	if op == "~=" {
-		v = Val{K: "s", S: rapid.SampledFrom([]string{"a", "^a", "b$", ".*", "^$", "[aA]", "A+", "a|b", "^(a|A)b?$", "x"}).Draw(g.t, "regex")}
+		v = Val{K: "s", S: pickU(g, []string{"a", "^a", "b$", ".*", "^$", "[aA]", "A+", "a|b", "^(a|A)b?$", "x"}, "regex")}
 	}
 	return Leaf{Conn: conn, Path: p.Path, Op: op, V: v}
 }
@@ -521,24 +554,50 @@ func (g *G) Query() *Query {
 	q := &Query{}
 	n := 1
 	if g.p.MaxLeaves > 1 {
-		n = rapid.IntRange(1, g.p.MaxLeaves).Draw(g.t, "nleaves")
+		n = 1 + g.uni(g.p.MaxLeaves, "nleaves")
 	}
 	for i := 0; i < n; i++ {
 		conn := ""
 		if i > 0 {
-			conn = rapid.SampledFrom([]string{"and", "and", "or"}).Draw(g.t, "conn")
+			conn = pickU(g, []string{"and", "and", "or"}, "conn")
 		}
 		q.Leaves = append(q.Leaves, g.Leaf(conn))
 	}
-	if g.pct("limit") < 35 {
-		l := uint64(rapid.SampledFrom([]int{0, 1, 2, 3, 5, 100}).Draw(g.t, "limitv"))
+	lp := g.p.LimitPct
+	if lp == 0 {
+		lp = 35
+	}
+	andOnly := g.pct("andonly") < g.p.AndOnlyPct
+	if andOnly {
+		for i := range q.Leaves {
+			if i > 0 {
+				q.Leaves[i].Conn = "and"
+			}
+		}
+	}
+	if ip := g.cfg.IndexedPaths(); len(ip) > 0 && g.pct("indexedlast") < g.p.IndexedLastPct {
+		p := pickU(g, ip, "lastpath")
+		last := &q.Leaves[len(q.Leaves)-1]
+		last.Path = p.Path
+		if last.Op == "~=" && p.Class != ClsStr {
+			last.Op = "!="
+		}
+		if last.Op != "~=" {
+			last.V = g.Probe(p)
+			if g.pct("wideop") < 50 {
+				last.Op = pickU(g, []string{"!=", "<=", ">=", ">", "<"}, "wideopv")
+			}
+		}
+	}
+	if g.pct("limit") < lp {
+		l := uint64(pickU(g, []int{0, 1, 2, 3, 5, 100}, "limitv"))
 		if g.pct("maxlimit") < 10 {
 			l = math.MaxUint64
 		}
 		q.Limit = &l
 	}
 	q.Reverse = g.pct("reverse") < 30
-	q.Consumer = rapid.SampledFrom([]string{"collect", "collect", "assign", "one", "assignone"}).Draw(g.t, "consumer")
+	q.Consumer = pickU(g, []string{"collect", "collect", "assign", "one", "assignone"}, "consumer")
 	return q
 }
 
@@ -555,21 +614,21 @@ func (g *G) Sets() []FieldSet {
 	}
 	cands = append(cands, docPathIndex["S"], docPathIndex["I64"], docPathIndex["Pt.N"])
 	for i := 0; i < n; i++ {
-		p := rapid.SampledFrom(cands).Draw(g.t, "setpath")
+		p := pickU(g, cands, "setpath")
 		out = append(out, FieldSet{Path: p.Path, V: g.Val(p)})
 	}
 	return out
 }
 
 func (g *G) Items(max int) []BatchItem {
-	n := rapid.IntRange(0, max).Draw(g.t, "nitems")
+	n := g.uni(max+1, "nitems")
 	kinds := []string{"new", "new", "new", "upd", "upd", "same", "copy", "newuuid"}
 	if g.pct("other") < 12 {
 		kinds = append(kinds, "other", "otheruuid")
 	}
 	var out []BatchItem
 	for i := 0; i < n; i++ {
-		it := BatchItem{Kind: rapid.SampledFrom(kinds).Draw(g.t, "itemkind")}
+		it := BatchItem{Kind: pickU(g, kinds, "itemkind")}
 		switch it.Kind {
 		case "new":
 			it.D = g.Doc()
@@ -577,12 +636,12 @@ func (g *G) Items(max int) []BatchItem {
 			it.D = g.Doc()
 			it.Seed = uint64(rapid.IntRange(1, 6).Draw(g.t, "seed"))
 		case "upd":
-			it.Ref = rapid.IntRange(0, 50).Draw(g.t, "ref")
+			it.Ref = g.uni(64, "ref")
 			it.Sets = g.Sets()
 		case "same":
-			it.Prev = rapid.IntRange(0, 50).Draw(g.t, "prev")
+			it.Prev = g.uni(64, "prev")
 		case "copy":
-			it.Prev = rapid.IntRange(0, 50).Draw(g.t, "prev")
+			it.Prev = g.uni(64, "prev")
 			it.Sets = g.Sets()
 			it.D = g.Doc()
 		case "otheruuid":
@@ -601,7 +660,7 @@ func (g *G) Op() Op {
 		}
 	}
 	sortStrings(kinds)
-	kind := rapid.SampledFrom(kinds).Draw(g.t, "op")
+	kind := pickU(g, kinds, "op")
 	op := Op{Op: kind}
 	switch kind {
 	case "insert":
@@ -610,16 +669,16 @@ func (g *G) Op() Op {
 		op.D = g.Doc()
 		op.Seed = uint64(rapid.IntRange(1, 6).Draw(g.t, "seed"))
 	case "update":
-		op.Ref = rapid.IntRange(0, 50).Draw(g.t, "ref")
+		op.Ref = g.uni(64, "ref")
 		if g.pct("replace") < 25 {
 			op.D = g.Doc()
 		} else {
 			op.Sets = g.Sets()
 		}
 	case "resave", "delete", "deleteAbsent":
-		op.Ref = rapid.IntRange(0, 50).Draw(g.t, "ref")
+		op.Ref = g.uni(64, "ref")
 	case "resurrect":
-		op.Ref = rapid.IntRange(0, 50).Draw(g.t, "ref")
+		op.Ref = g.uni(64, "ref")
 		if g.pct("resets") < 40 {
 			op.Sets = g.Sets()
 		}
@@ -627,7 +686,7 @@ func (g *G) Op() Op {
 		op.Items = g.Items(6)
 	case "bulk":
 		op.Items = g.Items(8)
-		op.CSize = rapid.IntRange(0, 5).Draw(g.t, "csize")
+		op.CSize = g.uni(6, "csize")
 	case "searchDelete":
 		q := g.Query()
 		q.Limit, q.Reverse, q.Consumer = nil, false, ""
@@ -641,7 +700,7 @@ func (g *G) Op() Op {
 func (g *G) Program() *Program {
 	g.cfg = g.Config()
 	prog := &Program{Property: g.p.Property, Cfg: g.cfg}
-	n := rapid.IntRange(1, g.p.MaxOps).Draw(g.t, "nops")
+	n := 1 + g.uni(g.p.MaxOps, "nops")
 	for i := 0; i < n; i++ {
 		prog.Ops = append(prog.Ops, g.Op())
 	}
